@@ -5,7 +5,10 @@ EXE = 'c16'
 THEOREMS = ['Tbox.C16.C16_conforms', 'Tbox.C16.C16_conforms_fresh', 'Tbox.C16.C16_first_match',
             'Tbox.C16.C16_order_once', 'Tbox.C16.C16_balanced', 'Tbox.C16.C16_balanced_after_stop',
             'Tbox.C16.C16_reentrancy_rejected', 'Tbox.C16.C16_balanced_counterexample_unpatched',
-            'Tbox.C16.C16_reentrancy_counterexample_unpatched']
+            'Tbox.C16.C16_reentrancy_counterexample_unpatched', 'Tbox.C16.C16_guard_eval_order',
+            'Tbox.C16.C16_arena_balanced', 'Tbox.C16.C16_arena_balanced_after_stop', 'Tbox.C16.C16_arena_reentrancy_rejected',
+            'Tbox.C16.C16_arena_frame', 'Tbox.C16.C16_arena_shared_sub_stranded', 'Tbox.C16.C16_arena_first_match', 'Tbox.C16.C16_arena_guard_eval_order',
+            'Tbox.C16.C16_arena_fuel_suffices', 'Tbox.C16.C16_arena_prog_fuel_suffices', 'Tbox.C16.C16_arena_order_once', 'Tbox.C16.C16_arena_order_once_prog', 'Tbox.C16.C16_arena_no_null_deref']
 import vlib
 SOURCES = ['modules/flow/state_machine.cpp'] + vlib.BASE_SOURCES
 FLAVOUR = 'asan'
@@ -17,14 +20,22 @@ TRUSTED = ['two hand-written models of modules/flow/state_machine.cpp (with patc
            'the ARENA model lean/TboxModel/C16/Arena.lean (everything else the API allows: callbacks calling any machine, calls addressed to a '
            'sub-machine, a machine object attached to several states, definition calls after start, any depth); on every case inside the tree '
            'fragment the driver runs both and flags a disagreement (M MODEL-MISMATCH)',
-           'outside the tree fragment there is no theorem, only the arena model as coded + the tie',
-           'attachment cycles (a machine reachable from itself) are refused by the protocol; toJson/setName are not modelled']
-ASSUMPTIONS = ['std::function callbacks do not throw', 'state/event ids fit in int (the protocol limits them to 9 digits)',
+           'outside the tree fragment the ARENA theorems apply (per machine object, every program of calls on any machine + definition calls: '
+           'balance, idle between calls, re-entrancy rejected, frame, first-match, guard evaluation order, order-once, fuel suffices); '
+           'refinement to the reference semantics (trace equality) is a theorem of the tree model only — for the arena it rests on the tie',
+           'attachment cycles (a machine reachable from itself) are refused by the protocol (start/stop/run terminate on them — C16_arena_fuel_suffices needs no acyclicity — but toJson recurses without bound); toJson is '
+           'transcribed (lean/TboxModel/C16/Json.lean) and compared as a canonical P J line; it is a pure function of the store by construction (no theorem beyond that)']
+ASSUMPTIONS = ['std::function callbacks do not throw', 'state/event ids are C++ int: the protocol accepts exactly [-2147483648, 2147483647] (10 digits at most)',
+               'toJson(): labels/names are those the harness passes (state L<id>, route R<index>, machine m<k>); the nlohmann object is read back member by member',
                'the sub-machine attachments are acyclic', 'Event.extra is an opaque pointer: the machine hands it to callbacks unchanged (observed: tag printed by every callback)']
 RULE = ('cases = a generated hierarchy of 1..40 machines (depth <= 10, 1..5 states each incl. user state 0, wildcard/specific routes with '
         'truth-table guards, specific/default event handlers, terminal routes, scripted callbacks observing/calling their own machine, ancestors, '
         'or any machine; shared sub-machine objects; events with extra tags) + a call sequence of start/run/stop/restart on the root or addressed '
-        'to a sub-machine, with definition calls in between; non-trivial = the model run takes a transition inside a sub-machine (depth >= 1) '
+        'to a sub-machine, with definition calls and toJson() dumps (json [@k]: canonical text of the emitted object vs. the model, then '
+        'the snapshot) in between; boundary families: ids/events/targets/handler keys and returns/init ids at the ends of int and around '
+        '-1/0 (state -1, user state 0, run 0, handler key 0), duplicate states, routes from/to undefined states, undefined init, machines '
+        'with zero states as root and as sub-machine, a chain of 2000 (thorough: 10000) states walked by run, one state with 2000 (10000) '
+        'routes of which the last is eligible; non-trivial = the model run takes a transition inside a sub-machine (depth >= 1) '
         'and a run() returned true at least once; distinct = distinct op text')
 
 EVS = [0, 1, 1, 2, 2, 3, 4, 5]
@@ -147,8 +158,147 @@ def gen_calls(rng, n, mode, nmach):
         else: op = 'run ' + g_event(rng)
         if mode == 'any' and not op.startswith('def') and rng.random() < 0.15: op += ' @%d' % rng.randrange(nmach)
         ops.append(op)
+        # toJson() of the root or of any machine of the case (it is const: legal in every mode); rarely on big hierarchies:
+        # a machine object attached to several states is dumped once per attachment, the text grows exponentially with depth
+        if rng.random() < (0.04 if nmach <= 8 else 0.006): ops.append('json' if rng.random() < 0.5 else 'json @%d' % rng.randrange(nmach))
     if rng.random() < 0.7: ops.append('stop')
+    if rng.random() < (0.05 if nmach <= 8 else 0.01): ops.append('json')
     return ops
+
+
+# ---- boundary families --------------------------------------------------------------------------
+INT_MIN, INT_MAX = -2147483648, 2147483647
+BIDS = [INT_MIN, INT_MIN + 1, -2, -1, 0, 1, INT_MAX - 1, INT_MAX]
+
+
+def b_script(rng, evs, nmach):
+    r = rng.random()
+    if r < 0.35: return '.'
+    if r < 0.80: return 'o'
+    t = '' if rng.random() < 0.6 else '@%d' % rng.randrange(nmach)
+    return rng.choice(['o,e%d%s' % (rng.choice(evs), t), 'x%s,o' % t, 's%s' % t, 'r%s,o' % t, 'o%s' % t])
+
+
+def b_probe(rng, evs, nmach):
+    return '-' if rng.random() < 0.3 else b_script(rng, evs, nmach)
+
+
+def gen_boundary(rng):
+    """state ids, event ids, route targets, handler keys/return values and init ids at the ends of `int`
+    and around NULL_STATE_ID (-1) / TERM_STATE_ID = ANY_EVENT_ID (0)"""
+    nmach = rng.choice([1, 1, 2, 2, 3])
+    pool = BIDS + [2, 3]
+    evs = rng.sample(pool, rng.choice([3, 4, 5]))
+    if rng.random() < 0.5 and 0 not in evs: evs[0] = 0
+    lines, allids = [], []
+    for k in range(nmach):
+        ids = rng.sample(pool, rng.choice([1, 2, 3, 4, 5, 6]))
+        if rng.random() < 0.35 and 0 not in ids: ids[rng.randrange(len(ids))] = 0         # user-defined state 0 ...
+        if rng.random() < 0.25 and -1 not in ids: ids.insert(rng.randrange(len(ids) + 1), -1)   # ... and state -1
+        allids.append(ids)
+        lines.append('mach')
+        for sid in ids:
+            lines.append('st %d %s %s' % (sid, b_probe(rng, evs, nmach), b_probe(rng, evs, nmach)))
+            if rng.random() < 0.08: lines.append('st %d o o' % sid)                     # duplicate id
+        for sid in ids:
+            if sid == 0 and rng.random() < 0.4: continue                               # state 0 without routes out of it
+            for _ in range(rng.choice([0, 1, 1, 2, 3])):
+                ev = rng.choice(evs + [0, 0])
+                r = rng.random()
+                to = rng.choice(ids) if r < 0.75 else (0 if r < 0.87 else rng.choice(pool))
+                g = '-' if rng.random() < 0.6 else 'G%s/%s' % ('|'.join(str(e) for e in evs if rng.random() < 0.6), b_script(rng, evs, nmach))
+                lines.append('rt %d %d %d %s %s' % (sid, ev, to, g, b_probe(rng, evs, nmach)))
+        if rng.random() < 0.15: lines.append('rt %d %d %d - .' % (rng.choice(pool), rng.choice(evs), rng.choice(ids)))   # source maybe undefined
+        for sid in ids:
+            if rng.random() < 0.35:
+                for _ in range(rng.choice([1, 1, 2])):
+                    key = rng.choice(evs + [0])                                          # key 0 = the default handler
+                    ents = ['%d>%d' % (e, rng.choice(ids + ids + pool)) for e in evs if rng.random() < 0.4]
+                    ents.append('*>%d' % rng.choice([-1, -1, -1, rng.choice(ids), rng.choice(pool)]))
+                    lines.append('ev %d %d %s %s' % (sid, key, '|'.join(ents), b_script(rng, evs, nmach)))
+        r = rng.random()
+        if r < 0.35: lines.append('init %d' % rng.choice(ids))
+        elif r < 0.50: lines.append('init %d' % rng.choice(pool))
+        if rng.random() < 0.5: lines.append('cb %s' % b_script(rng, evs, nmach))
+        if k > 0 and rng.random() < 0.7:
+            lines.append('sub %d %d' % (rng.choice(ids + [rng.choice(pool)]), rng.randrange(k)))
+            if rng.random() < 0.2: lines.append('sub %d %d' % (rng.choice(ids), rng.randrange(k)))
+        lines.append('end')
+    root = nmach - 1 if rng.random() < 0.85 else rng.randrange(nmach)
+    lines.append('go %d' % root)
+    if rng.random() < 0.2: lines.append('json')
+    if rng.random() < 0.9: lines.append('start')
+    for _ in range(rng.choice([5, 10, 16, 24])):
+        r = rng.random()
+        if r < 0.70:
+            op = 'run %d' % rng.choice(evs + evs + [0] + pool)
+            if rng.random() < 0.1: op += ':%d' % rng.choice([1, INT_MAX])
+        elif r < 0.73: op = 'stop'
+        elif r < 0.81: op = 'start'
+        elif r < 0.86: op = 'restart'
+        elif r < 0.94: op = 'json'
+        else:
+            k = rng.randrange(nmach); ids = allids[k]
+            op = 'def %d %s' % (k, rng.choice(['st %d o o' % rng.choice(pool), 'init %d' % rng.choice(pool + ids),
+                                               'rt %d %d %d - .' % (rng.choice(ids), rng.choice(evs), rng.choice(pool + ids)),
+                                               'ev %d %d *>%d o' % (rng.choice(ids), rng.choice(evs + [0]), rng.choice(pool))]))
+        if not op.startswith('def') and rng.random() < 0.12: op += ' @%d' % rng.randrange(nmach)
+        lines.append(op)
+    if rng.random() < 0.3: lines.append('json')
+    return lines
+
+
+def gen_degenerate(rng):
+    """machines with zero/one/two states (as root and as sub-machine), duplicate `st`, routes from/to undefined
+    states, `init` to an undefined state, then start/run/stop/restart/json on them"""
+    nmach = rng.choice([1, 2, 2, 3])
+    lines = []
+    for k in range(nmach):
+        ids = rng.sample([-1, 0, 1, 2, 7], rng.choice([0, 0, 1, 1, 2]))
+        lines.append('mach')
+        for sid in ids:
+            lines.append('st %d %s %s' % (sid, rng.choice(['-', '.', 'o']), rng.choice(['-', '.', 'o'])))
+            if rng.random() < 0.3: lines.append('st %d . .' % sid)
+        for _ in range(rng.choice([0, 1, 2, 3])):
+            lines.append('rt %d %d %d - %s' % (rng.choice(ids + [1, 9, 0, -1]), rng.choice([0, 1, 2]), rng.choice(ids + [0, 2, 9, -1]), rng.choice(['-', '.', 'o'])))
+        if rng.random() < 0.3: lines.append('ev %d %d *>%d o' % (rng.choice(ids + [1, 9]), rng.choice([0, 1]), rng.choice(ids + [-1, 0, 9])))
+        if rng.random() < 0.5: lines.append('init %d' % rng.choice(ids + [9, 0, -1, 1]))
+        if rng.random() < 0.3: lines.append('cb o')
+        if k > 0 and rng.random() < 0.8: lines.append('sub %d %d' % (rng.choice(ids + [1]), rng.randrange(k)))
+        lines.append('end')
+    lines.append('go %d' % (nmach - 1 if rng.random() < 0.7 else rng.randrange(nmach)))
+    for _ in range(rng.choice([4, 8, 12])):
+        op = rng.choice(['start', 'start', 'stop', 'restart', 'run 0', 'run 1', 'run 1', 'run 2', 'json',
+                         'def %d st %d o o' % (rng.randrange(nmach), rng.choice([0, 1, 9])), 'def %d init %d' % (rng.randrange(nmach), rng.choice([0, 1, 9, -1]))])
+        if not op.startswith('def') and rng.random() < 0.2: op += ' @%d' % rng.randrange(nmach)
+        lines.append(op)
+    return lines
+
+
+def gen_chain(n, descending=False, sub=False):
+    """one machine with n states in a chain, state i --ev 1--> i+1, driven through all of them by `run 1`
+    (definition order ascending or descending: std::map order vs. registration order); optionally attached as the
+    sub-machine of a one-state parent"""
+    order = list(range(n, 0, -1)) if descending else list(range(1, n + 1))
+    lines = ['mach'] + ['st %d - -' % i for i in order]
+    lines += ['rt %d 1 %d - -' % (i, i + 1) for i in order if i < n] + ['rt %d 2 0 - -' % n, 'init 1', 'end']
+    if sub:
+        lines += ['mach', 'st 1 . .', 'rt 1 1 0 - .', 'sub 1 0', 'end', 'go 1']
+    else:
+        lines += ['go 0']
+    return lines + ['start'] + ['run 1'] * (n + 1) + ['json', 'run 2', 'run 1', 'stop', 'json']
+
+
+def gen_fan(n, guards):
+    """one state with n routes of which only the last one is eligible: n-1 routes for other events, or n-1 routes
+    whose guard is false (every guard evaluation prints a line)"""
+    lines = ['mach', 'st 1 . .', 'st 2 . .']
+    if guards:
+        lines += ['rt 1 %d 2 G2/. .' % (0 if i % 2 else 1) for i in range(n - 1)] + ['rt 1 0 2 G1|3/. o']
+    else:
+        lines += ['rt 1 %d 2 - .' % (i + 2) for i in range(n - 1)] + ['rt 1 1 2 - o']
+    lines += ['rt 2 0 1 - .', 'end', 'go 0', 'start']
+    return lines + ['run 1', 'run 1', 'run %d' % (n + 5), 'run 3', 'run 1', 'run 1', 'json', 'run 1', 'stop']
 
 
 def gen_case(rng, depth, mode, p_sub=None):
@@ -196,6 +346,45 @@ DIRECTED = [
      'mach', 'st 1 e1@0,o@0 x@0', 'st 2 s@0 .', 'rt 1 2 2 - x@0,s@0,e1@0', 'rt 2 2 1 - .', 'sub 1 0', 'sub 2 0', 'end', 'go 1',
      'start', 'run 1', 'run 2', 'run 1 @0', 'stop @0', 'run 2', 'start @0', 'stop', 'def 1 st 3 . .', 'def 0 rt 1 2 1 - .', 'def 1 rt 1 3 3 - .',
      'start', 'def 1 st 4 . .', 'def 1 sub 3 0', 'run 3', 'stop @0', 'def 0 cb o@1', 'def 0 init 2', 'run 3', 'stop', 'def 1 init 3', 'start', 'stop'],
+    # toJson(): machine 0 is shared by two states of machine 2 (dumped twice), machine 1 is never started, state ids in
+    # std::map order (negative first, -1 included), event keys ascending without the default handler, routes in
+    # registration order with wildcard/terminal/extreme ids; dumps before start, while running, in the built-in
+    # terminal state (curr=0 with no state 0), after stop
+    ['mach', 'st 2 o o', 'st 1 . .', 'rt 1 1 2 - .', 'rt 2 0 0 - .', 'ev 2 5 *>-1 .', 'ev 2 -3 *>-1 .', 'ev 2 0 *>-1 .', 'ev 2 4 *>-1 .', 'ev 2 5 *>-1 o', 'init 1', 'end',
+     'mach', 'st 7 . .', 'end',
+     'mach', 'st 3 . .', 'st -1 . .', 'st -2147483648 . .', 'st 2147483647 . .', 'st -4 . .', 'st 3 o o',
+     'rt 3 2 -4 - .', 'rt 3 2147483647 2147483647 G1/. .', 'rt 3 0 0 - -', 'rt 3 9 -1 - .', 'rt -1 1 3 - .', 'rt -4 -2147483648 -2147483648 - .', 'rt -4 2 3 - .',
+     'rt -2147483648 2 0 - .', 'sub 3 0', 'sub -4 0', 'sub 2147483647 1', 'sub -1 1', 'init 3', 'end', 'go 2',
+     'json', 'json @0', 'json @1', 'start', 'json', 'run 1', 'json', 'run 2', 'json', 'run 1', 'run 2', 'json @0', 'run -2147483648', 'run 2', 'json', 'run 1', 'stop', 'json',
+     'start @0', 'run 1 @0', 'run 1 @0', 'json @0', 'json'],
+    # NULL_STATE_ID / TERM_STATE_ID / ANY_EVENT_ID used as ordinary ids: state -1 is stored but never found (init stays
+    # unset, no route from/to it, no handler on it), user state 0 with a route out of it, `run 0`, handler key 0, handler
+    # returning -2 with and without a state -2, init -2 / init -1
+    ['mach', 'st -1 o o', 'st -1 . .', 'rt -1 1 -1 - .', 'ev -1 1 *>-1 .', 'sub -1 0', 'json', 'end',
+     'mach', 'st -1 o o', 'st 1 o o', 'st 0 o o', 'rt 1 0 -1 - .', 'rt 1 1 -2 - .', 'rt 0 0 1 G0/o o', 'rt 1 7 0 - o', 'ev 1 0 2>-2|3>-1|*>-1 o', 'ev 1 4 *>0 o', 'ev 0 0 0>-2|*>-1 o', 'init -2', 'end',
+     'go 1', 'json', 'start', 'def 1 init -1', 'start', 'def 1 init 1', 'start', 'run 0', 'run 2', 'run 3', 'def 1 st -2 o o', 'run 2', 'stop', 'def 1 st -2 o o',
+     'def 1 rt -2 0 0 - o', 'def 1 rt 1 1 -2 - o', 'start', 'run 2', 'run 0', 'run 0', 'run 0', 'run 1', 'run 1', 'run 4', 'run 1', 'json', 'def 1 init -2', 'restart', 'json',
+     'start @0', 'json @0', 'stop'],
+    # machines with no state at all: as the root, as a sub-machine, addressed directly
+    ['mach', 'end', 'mach', 'st 1 o o', 'rt 1 1 0 - o', 'sub 1 0', 'end', 'mach', 'end', 'go 1', 'json', 'start', 'run 1', 'run 1', 'start @0', 'run 0 @0', 'restart @0', 'stop @2', 'json @2',
+     'stop', 'restart', 'def 0 st 0 o o', 'stop', 'def 0 st 0 o o', 'def 0 st 0 o o', 'start', 'json', 'run 1', 'stop', 'json'],
+    ['mach', 'end', 'go 0', 'json', 'start', 'run 0', 'run 1', 'stop', 'restart', 'json', 'def 0 init 0', 'start', 'def 0 st 0 . .', 'start', 'run 0', 'json'],
+    # Props.lean `sharedArena` (C16_arena_shared_sub_stranded): one machine object as sub-machine of two PARENTS; the first parent's
+    # stop() stops it, the second parent keeps delegating to it and never handles the event itself; later the second parent restarts
+    ['mach', 'st 1 . .', 'end',
+     'mach', 'st 1 . .', 'sub 1 0', 'end',
+     'mach', 'st 1 . .', 'st 2 . .', 'rt 1 1 2 - .', 'sub 1 0', 'end', 'go 2',
+     'start @1', 'start', 'stop @1', 'run 1', 'run 1', 'restart', 'run 1', 'start @1', 'stop', 'run 1 @1', 'stop @1', 'stop @0'],
+    # Props.lean `pingPong`: two unrelated machines whose transition actions call each other (accepted downwards, rejected back)
+    ['mach', 'st 1 - -', 'st 2 - -', 'rt 1 1 2 - e1@1,o@1', 'rt 2 1 1 - x@1,s@1,o@1', 'end',
+     'mach', 'st 1 - -', 'st 2 - -', 'rt 1 1 2 - e2@0,x,o@0', 'rt 2 0 1 G1|2/e1@0,r@0 s@0', 'end', 'go 0',
+     'start', 'start @1', 'run 1', 'run 1', 'run 1', 'run 2 @1', 'run 1 @1', 'stop @1', 'run 1', 'stop'],
+    # re-entrancy through GUARDS: guard bodies call run() on their own machine, on the parent and on an unrelated machine whose own
+    # guards call back; every candidate guard is evaluated once, in order, up to the first match (C16_arena_guard_eval_order)
+    ['mach', 'st 1 . .', 'st 2 . .', 'rt 1 0 2 G9/e1,e1@1,e3@2,o .', 'rt 1 1 2 G/o,x .', 'rt 1 0 2 G1|2/r@1,e1 o', 'rt 1 0 1 G1/o .', 'rt 2 0 1 G2/e2 .', 'end',
+     'mach', 'st 1 . .', 'st 2 . .', 'rt 1 7 2 G7/e1@0 .', 'sub 1 0', 'end',
+     'mach', 'st 5 . .', 'st 6 . .', 'rt 5 3 6 G/e1@1,e1@0 .', 'rt 5 0 6 G3/e7@1,o@1 e1@0', 'rt 6 0 5 - .', 'end', 'go 1',
+     'start', 'start @2', 'run 1', 'run 2', 'run 1', 'run 7', 'run 3 @2', 'run 1', 'stop', 'stop @2'],
 ]
 
 MALFORMED = [
@@ -203,9 +392,16 @@ MALFORMED = [
      'rt 1 1 1 G1|/. .', 'rt 1 x 1 - -', 'ev 1 1 1>2 .', 'ev 1 1 *>1|2>3 .', 'ev 1 1 *>-1 -', 'sub 1 0', 'sub 1 5', 'cb -', 'init', 'go 0', 'end',
      'end', 'sub 1 0', 'go 1', 'go -0', 'go 0', 'mach', 'st 1 . .', 'run', 'run 1 2', 'run 1x', 'stop now', 'frob', 'run -0', 'run 007',
      'run 1:', 'run 1:2:3', 'run 1:-2', 'run 1 @', 'run 1 @9', 'run 1 @x', '@0', 'stop @0', 'def', 'def 0', 'def 9 st 1 . .', 'def 0 end', 'def 0 st 2 o@5 .',
-     'def 0 sub 1 0', 'def 0 st 2 o@0,e1:2@0 .', 'run 2:5'],
+     'def 0 sub 1 0', 'def 0 st 2 o@0,e1:2@0 .', 'run 2:5',
+     'json x', 'json @', 'json @99', 'json @0 @0', 'json', 'json @0', 'json @-0', 'json@0', 'Json', 'def 0 json', 'json 0',
+     # the range of int, nothing beyond: 10 digits at most
+     'run 2147483647', 'run 2147483648', 'run -2147483648', 'run -2147483649', 'run 9999999999', 'run 00000000001', 'run 0000000001', 'run 1:2147483647', 'run 1:2147483648',
+     'run 1 @2147483648', 'run 1 @4294967296', 'run 1 @2147483647', 'def 0 st 2147483648 . .', 'def 0 st -2147483649 . .', 'def 0 init 4294967295', 'def 0 init -4294967296',
+     'def 0 rt 1 4294967297 1 - .', 'def 0 ev 1 1 4294967297>1|*>-1 .', 'def 0 ev 1 1 *>4294967295 .', 'def 0 rt 1 1 1 G4294967297/. .', 'def 4294967296 init 1', 'run --1', 'run -', 'run +1'],
     # script targets beyond the machines of the case: `go` is refused
     ['mach', 'st 1 o@3 .', 'end', 'go 0', 'mach', 'st 1 . e1@@2', 'st 1 . e@1', 'end', 'go 0', 'mach', 'end', 'mach', 'end', 'go 0', 'start'],
+    # `json` exists only after `go`
+    ['json', 'mach', 'json', 'st 1 . .', 'json @0', 'end', 'json', 'json @0', 'go 0', 'json', 'json @1', 'json @0'],
     # a cycle of attachments is refused
     ['mach', 'st 1 . .', 'sub 1 0', 'end', 'mach', 'st 1 . .', 'sub 1 0', 'end', 'go 1', 'def 0 sub 1 1', 'def 0 sub 1 0', 'def 1 sub 1 1', 'start', 'stop'],
 ]
@@ -222,6 +418,15 @@ def gen(rng, tier):
     for L in range(1, 4 if tier == 'quick' else 6):
         for seq in itertools.product(alpha, repeat=L):
             yield defn + list(seq)
+    # boundary families: ids at the ends of int and around -1/0; degenerate machines; big machines
+    for i in range(n // 5): yield gen_boundary(rng)
+    for i in range(n // 20): yield gen_degenerate(rng)
+    big = 2000 if tier == 'quick' else 10000
+    yield gen_chain(big, descending=False, sub=True)
+    yield gen_fan(big, guards=True)
+    if tier != 'quick':
+        yield gen_chain(big, descending=True)
+        yield gen_fan(big, guards=False)
     for i in range(n):
         r = rng.random()
         if r < 0.15: yield gen_case(rng, rng.choice([0, 1, 2, 3]), 'self')
@@ -243,6 +448,29 @@ def gen(rng, tier):
         yield c
 
 
+DRIVER_CHUNK = 4000
+
+
+def check(tier, seed, replay=None):
+    """the standard check with the Lean driver run over chunks of cases: one driver process for all cases of the thorough tier
+    writes more than vlib's output cap of 256 MB (snapshot lines of 40-machine hierarchies, toJson dumps) and may pass the
+    600 s limit on a loaded machine"""
+    import types
+    orig = vlib.run_driver_cases
+
+    def chunked(exe_name, cases, argv=(), timeout=600, extra_input=None):
+        out, idxs = {}, sorted(cases)
+        for pos in range(0, len(idxs), DRIVER_CHUNK):
+            out.update(orig(exe_name, {i: cases[i] for i in idxs[pos:pos + DRIVER_CHUNK]}, argv, timeout))
+        return out
+    vlib.run_driver_cases = chunked
+    P = types.SimpleNamespace(**{k: v for k, v in globals().items() if not k.startswith('__') and k != 'check'})
+    try:
+        return vlib.standard_check(P, tier, seed, replay)
+    finally:
+        vlib.run_driver_cases = orig
+
+
 def nontrivial(ops, model_lines):
     tags = set()
     for l in model_lines:
@@ -257,7 +485,7 @@ def _shape(line):
         return 'T %s' % w[3].split('@')[0]
     if w and w[0] == 'CRASH': return ' '.join(w[:2])[:40]
     if len(w) >= 2 and w[0] == 'P':
-        return w[1] if w[1] in ('S', 'R', 'st', 'rt', 'ev', 'sub', 'go', 'end', 'mach', 'init', 'cb', 'def') else 'P?'
+        return w[1] if w[1] in ('S', 'R', 'J', 'st', 'rt', 'ev', 'sub', 'go', 'end', 'mach', 'init', 'cb', 'def') else 'P?'
     return w[0] if w else '-'
 
 
@@ -274,10 +502,13 @@ def fingerprint(ops, d):
 LEVEL_TEXT = ('Lean 4 theorems over a hand-written model of StateMachine::Impl (start/stop/restart/run with cb_level_, nested machines of any '
               'depth): refinement to an independently written reference semantics for every definition and call sequence, first-match route '
               'selection, exit/action/enter/notify exactly once and in order per transition, enter/exit balance at every nesting level, '
-              're-entrant calls on the own machine and on every ancestor rejected without state change; the model is tied to state_machine.cpp on every run by differential execution '
+              're-entrant calls on the own machine and on every ancestor rejected without state change; guard evaluations once each, in order, up to the first match; '
+              'for the ARENA model (all machine objects in one store: callbacks calling any machine, shared sub-machines, direct calls, late definitions) per machine object and for '
+              'every program: balance, idle between calls, re-entrancy rejected, frame, first-match, guard order, order-once, fuel suffices; the models are tied to state_machine.cpp on every run by differential execution '
               'of generated hierarchies (ASan+UBSan build of the working tree)')
 LEVEL_NOTE = ('trusted: Lean kernel, hand-written model + differential tie (coverage bounded by the generator, measured in evidence); callbacks '
               'calling machines other than their own or an ancestor, shared sub-machine objects, direct calls to sub-machines and late definition calls '
-              'are covered by the arena model + tie only, not by the theorems')
+              'are covered by the arena theorems (balance / re-entrancy / frame per machine object, every program) and, for conformance to the '
+              'reference semantics, by the arena model + tie only; a machine object shared by two parents is outside the statement (witness theorem)')
 TECHNIQUE = 'Lean 4 refinement proof (transcribed model -> reference semantics) + model/implementation correspondence check'
 DESIGN_REF = 'DESIGN.md §6 C16, §7 row 9'
